@@ -59,9 +59,12 @@ type Scenario struct {
 	Lin bool
 	// NoTeardownChecks: skip leak accounting (scenario manages shutdown itself)
 	Custom func(w *SWorld) []Violation // fully custom body instead of Threads (shutdown scenarios)
+	NoOpen bool                        // the scenario opens its own handles (Setup / threads)
 }
 
 type SWorld struct {
+	Cfg   Config
+	Extra []*rosmar.Bucket // further buckets to delete at teardown
 	Sc    *Scenario
 	Root  string
 	H     []*rosmar.Bucket
@@ -184,7 +187,10 @@ func runScenario(sc *Scenario, prefix []int, hook func(p *vrt.Point) int) ExecRe
 		keys = []string{"k"}
 	}
 	oc := vrt.Run(prefix, opts, func() {
-		w.Open(cfg)
+		w.Cfg = cfg
+		if !sc.NoOpen {
+			w.Open(cfg)
+		}
 		if sc.Feeds {
 			f, err := StartLiveFeed(w.A[0], "live")
 			must(err)
@@ -213,7 +219,9 @@ func runScenario(sc *Scenario, prefix []int, hook func(p *vrt.Point) int) ExecRe
 		}
 		vrt.Join(ts...)
 		vrt.Quiesce()
-		res.Final = w.finalState(keys)
+		if len(w.H) > 0 {
+			res.Final = w.finalState(keys)
+		}
 		res.Ops = w.Ops
 		if sc.Check != nil {
 			res.Violations = append(res.Violations, sc.Check(w, w.Ops, res.Final)...)
@@ -222,7 +230,12 @@ func runScenario(sc *Scenario, prefix []int, hook func(p *vrt.Point) int) ExecRe
 			f.CloseTerm()
 		}
 		vrt.Quiesce()
-		_ = w.H[0].CloseAndDelete(ctx)
+		if len(w.H) > 0 {
+			_ = w.H[0].CloseAndDelete(ctx)
+		}
+		for _, b := range w.Extra {
+			_ = b.CloseAndDelete(ctx)
+		}
 		vrt.Quiesce()
 	})
 	res.Points = oc.Points
@@ -318,7 +331,10 @@ func sequentialOutcomes(sc *Scenario) ([]seqOutcome, error) {
 			}
 			return w.H[0]
 		}), func() {
-			w.Open(cfg)
+			w.Cfg = cfg
+			if !sc.NoOpen {
+				w.Open(cfg)
+			}
 			if sc.Feeds {
 				f, err := StartLiveFeed(w.A[0], "live")
 				must(err)
